@@ -170,28 +170,19 @@ Proof.
   exact (reloc_identity_histories_lemma dbg be (rr_new s) ops (rr_new s) (RInv_new b a H)).
 Qed.
 
-(* ---- the two slice readers: the EndianSlice model run on the same window gives the same reader and
-   the same results as the EndianReader model, for every call except `empty` ... ---- *)
-(* full statement (refuted below):  forall dbg be dang root c op, Inv c -> Inv root ->
-     sstep dbg be dang (abs root) (abs c) op = abs_out (step dbg be root c op) *)
-Theorem kinds_agree_except_empty : forall dbg be dang root c op,
-  Inv c -> Inv root -> (op = CEmpty -> dang = ptr c) ->
-  sstep dbg be dang (abs root) (abs c) op = abs_out (step dbg be root c op).
+(* ---- kinds_agree: the EndianSlice model run on the same window gives the same reader and the same
+   results as the EndianReader model, for EVERY call (including `empty`, since gimli fd639ac keeps the
+   position of an emptied EndianSlice) and hence for every history ---- *)
+Theorem kinds_agree : forall dbg be root c op,
+  Inv c -> Inv root ->
+  sstep dbg be (abs root) (abs c) op = abs_out (step dbg be root c op).
 Proof. exact kinds_agree_lemma. Qed.
 
-Theorem kinds_agree_histories_except_empty : forall dbg be dang root ops c,
-  Inv c -> Inv root -> Forall (fun op => op <> CEmpty) ops ->
-  srun dbg be dang (abs root) (abs c) ops =
+Theorem kinds_agree_histories : forall dbg be root ops c,
+  Inv c -> Inv root ->
+  srun dbg be (abs root) (abs c) ops =
   (abs (fst (run dbg be root c ops)), map (rmap abs_val) (snd (run dbg be root c ops))).
 Proof. exact kinds_agree_histories_lemma. Qed.
-
-(* ... and `empty` is where the faithful EndianSlice model differs (known finding: `self.slice = &[]`
-   forgets the position; `&self.slice[..0]`, i.e. dang = ptr c, would agree by the theorem above) *)
-Theorem kinds_agree_refuted :
-  exists dbg be dang root c ops,
-    Inv c /\ Inv root /\ Sub root c /\
-    snd (srun dbg be dang (abs root) (abs c) ops) <> map (rmap abs_val) (snd (run dbg be root c ops)).
-Proof. exact kinds_agree_refuted_lemma. Qed.
 
 (* ---- the hypotheses are satisfiable by non-trivial readers ---- *)
 Definition ex_buf : list byte := [x41; x00; xc3; xa9; x00; x10; x20].
@@ -206,8 +197,6 @@ Example ex_sub : Sub ex_root ex_cur.
 Proof. repeat split; vm_compute; discriminate. Qed.
 Example ex_rinv : RInv (mkRR ex_root ex_cur).
 Proof. split; [|split]; [exact (proj1 ex_inv) | exact ex_wf_alloc | exact ex_sub]. Qed.
-Example ex_not_empty_ops : Forall (fun op => op <> CEmpty) [CSkip 1; CReadCstr; CSplit 2; CReadUn 1].
-Proof. repeat constructor; discriminate. Qed.
 (* a history that splits, reads a C string, clones, drops the root and reads from the clone *)
 Example ex_history :
   snd (prun true false ex_root [ex_root]
@@ -216,13 +205,13 @@ Example ex_history :
    Some (Ok (VRd (mkCur ex_buf 65536 5 2))); Some (Ok VUnit); Some (Ok (VNum 43459));
    Some (Ok (VOpt None))].
 Proof. vm_compute. reflexivity. Qed.
-(* the refutation witness, spelled out: after `empty` the slice reader has lost its position *)
-Example ex_empty_differs :
-  snd (srun true false 1 (abs ex_root) (abs ex_root) [CEmpty; COffsetFromRoot]) = [Ok VUnit; Panic] /\
-  snd (run true false ex_root ex_root [CEmpty; COffsetFromRoot]) = [Ok VUnit; Ok (VNum 0)] /\
-  snd (srun false false 1 (abs ex_root) (abs ex_root) [CEmpty; CRootLookupSelf]) = [Ok VUnit; Ok (VOpt None)] /\
-  snd (run false false ex_root ex_root [CEmpty; CRootLookupSelf]) = [Ok VUnit; Ok (VOpt (Some 0))].
-Proof. vm_compute. repeat split; reflexivity. Qed.
+(* after `empty` both models still know where the reader is *)
+Example ex_empty_agrees :
+  snd (srun true false (abs ex_root) (abs ex_cur) [CEmpty; COffsetFromRoot; CRootLookupSelf]) =
+    [Ok VUnit; Ok (VNum 2); Ok (VOpt (Some 2))] /\
+  snd (run true false ex_root ex_cur [CEmpty; COffsetFromRoot; CRootLookupSelf]) =
+    [Ok VUnit; Ok (VNum 2); Ok (VOpt (Some 2))].
+Proof. vm_compute. split; reflexivity. Qed.
 
 (* ---- pins ---- *)
 Check (inv_preserved : forall dbg be root c op, Inv c ->
@@ -238,3 +227,8 @@ Check (history_offset_ids : forall dbg be b a (ops : list pop),
   Forall (fun c => er_lookup_offset_id dbg (new b a) (er_offset_id c) = Ok (Some (off c)) /\
                    er_offset_from dbg c (new b a) = Ok (off c))
          (fst (prun dbg be (new b a) [new b a] ops))).
+Check (kinds_agree : forall dbg be root c op, Inv c -> Inv root ->
+  sstep dbg be (abs root) (abs c) op = abs_out (step dbg be root c op)).
+Check (kinds_agree_histories : forall dbg be root ops c, Inv c -> Inv root ->
+  srun dbg be (abs root) (abs c) ops =
+  (abs (fst (run dbg be root c ops)), map (rmap abs_val) (snd (run dbg be root c ops)))).
